@@ -103,8 +103,10 @@ def run(ctx):
     #    (d) outages: a backend in the table stops listening, calls arrive, it listens again, it leaves
     sink_burst = os.path.join(ctx.tmp, "c16.burst")
     sink_out = os.path.join(ctx.tmp, "c16.outage")
+    sink_flap = os.path.join(ctx.tmp, "c16.flap")
     jobs = [
-        ("per-call universe", dict(calls=ctx.pick("MCCallsQuick", "MCCallsFull"), slots=ctx.pick("MCSlots2", "MCSlots3")), sink_call, "mc_call"),
+        ("per-call universe", dict(calls=ctx.pick("MCCallsQuick", "MCCallsFull"), slots=ctx.pick("MCSlotsH", "MCSlots4")), sink_call, "mc_call"),
+        ("flapping", dict(calls="MCCallsFlap", tables="MCTablesFlap", nc=2, ns=2, nt=1), sink_flap, "mc_flap"),
         ("histories", dict(calls=ctx.pick("MCCallsHistSmall", "MCCallsHist"), tables="MCTablesAll", nc=3, ns=2, nt=ctx.pick(1, 2)), sink_hist, "mc_hist"),
         ("bursts", dict(calls="MCCallsHistSmall", tables="MCTablesAll", nc=ctx.pick(0, 1), ns=1, nt=1, nb=1), sink_burst, "mc_burst"),
         ("outages", dict(calls="MCCallsOutage", tables="MCTablesAll", nc=ctx.pick(4, 5), ns=1, nt=1, nd=1), sink_out, "mc_outage"),
@@ -231,7 +233,28 @@ def run(ctx):
         chosen_out.append(b)
         if len(chosen_out) >= ctx.pick(1, 5):
             break
-    if not burst_plain or not burst_tick or not chosen_out or out_score(chosen_out[0])[0] != -1:
+    # flapping: leave, clean-up, re-enter while the old connection awaits closing, a stream in flight across
+    # that closing ("d" somewhere between its first message and its end)
+    flaps = []
+    for b in sorted(read(sink_flap), key=key):
+        last = b["steps"][-1]
+        ops = [x["op"] for x in b["steps"]]
+        if last["op"] == "call" and "d" in last.get("ord", []) and ops.count("tick") == 1 and effective_ticks(b) == 1:
+            pos = last["ord"].index("d")
+            if 0 < pos < len(last["ord"]) - 1:
+                b["flap"] = True
+                flaps.append(b)
+    rnd.shuffle(flaps)
+    seen_pos, chosen_flap = set(), []
+    for b in flaps:
+        pos = b["steps"][-1]["ord"].index("d")
+        if pos not in seen_pos:
+            seen_pos.add(pos)
+            chosen_flap.append(b)
+    chosen_flap = chosen_flap[:ctx.pick(1, 4)]
+    if not ctx.thorough:
+        chosen_ticks = []       # the flapping behaviour also dials, leaves, is cleaned up and dials again
+    if not burst_plain or not burst_tick or not chosen_flap or not chosen_out or out_score(chosen_out[0])[0] != -1:
         ctx.inconclusive("the generator produced no burst / burst+clean-up / outage+recovery+clean-up behaviour")
         return
     for b in calls:
@@ -245,13 +268,15 @@ def run(ctx):
     # for the behaviours that wait for the proxy's timers
     for i, b in enumerate(chosen_ticks + burst_tick + chosen_out):
         b["drive"] = ("lock", "free")[(i + ctx.seed) % 2]
+    for b in chosen_flap:
+        b["drive"] = "lock"     # the closing of the old connection is a step of the call
     selftests = [corrupt(base, how) for how in ("resp", "status", "backend", "conn")]
-    allb = calls + plain + burst_plain + chosen_ticks + burst_tick + chosen_out + selftests
+    allb = calls + plain + burst_plain + chosen_ticks + chosen_flap + burst_tick + chosen_out + selftests
     for i, b in enumerate(allb):
         b["idx"] = i + 1
-    for b in chosen_ticks + burst_tick + chosen_out:
+    for b in chosen_ticks + chosen_flap + burst_tick + chosen_out:
         ctx.log("  closing-tick behaviour: " + " ".join(
-            s["op"] + (":" + (s.get("be") or "-") + "/" + s.get("conn", "") if s["op"] == "call" else
+            s["op"] + (":" + (s.get("be") or "-") + "/" + s.get("conn", "") + ("/" + "".join(s["ord"]) if "d" in s.get("ord", []) else "") if s["op"] == "call" else
                        ":" + ",".join(s.get("closed", [])) if s["op"] == "tick" else
                        ":" + s["be"] + ("x%d" % s["n"] if s["op"] == "burst" else "") if s["op"] in ("down", "up", "burst") else
                        ":" + ",".join(sorted(set(r["be"] for r in s["table"])))) for s in b["steps"]))
@@ -270,6 +295,8 @@ def run(ctx):
               samples=s.get("samples") or [], exhaustive=bool(ctx.thorough),
               rule="one behaviour per transition TLC examined that completes a call, a burst or a closing clean-up tick (shortest history to the source state + that step); per-call universe complete, histories complete in thorough and a seeded slice in quick, bursts distinct ones (24 in quick) x 2-5 plays, outages chosen by shape (refused calls + recovery + leaving + clean-up first); non-trivial = distinct behaviour with a routed call that moved >=2 messages, or a burst")
     ctx.take_failures(r, "c16")
+    if s.get("flaps_degenerate"):
+        ctx.log("%d flapping behaviour(s) said nothing: the proxy's clean-up ran later than expected" % s["flaps_degenerate"])
     if s.get("aborted"):
         ctx.inconclusive("replay stopped early: %s" % s["aborted"])
     if s["selftests"] != len(selftests) or s["selftests_rejected"] != s["selftests"]:
